@@ -117,6 +117,10 @@ func (v *Verifier) VerifyFunction(key string) {
 		fc.paramSV[name] = SV{T: t, GoT: p.Type()}
 		fc.paramOrder = append(fc.paramOrder, name)
 		v.assumeTyped(st, t, p.Type(), alloc0)
+		if fn.Signature.Recv() != nil && p == fn.Params[0] && pointee(p.Type()) != nil {
+			// a method called on a nil receiver is a programming error outside every property: receivers are non-nil
+			st.assume(c, c.Not(c.Eq(t, c.Int(0))))
+		}
 	}
 	// a function literal verified on its own: captured variables are read-only unknowns of the enclosing function,
 	// addressable in the contract by their names
